@@ -100,3 +100,34 @@ CHECKS['C07'] = {
              'big | tree shape D/A/B) with a non-trivial tree, counted by hashing.'),
     'assumptions': ['GMP arithmetic', 'own exact ILP (unimodular elimination + branch and bound over RefLP, cross-checked by window brute force)', 'parameter values <= 8 (big parameter: 4 large values)'],
 }
+
+CHECKS['C05'] = {
+    'level': 'exploration',
+    'jobs': [
+        {'engine': 'gridseq', 'variant': 'san', 'profile': 'default', 'quick': 1600, 'thorough': 40000, 'avg_case_s': 0.05},
+        {'engine': 'gridseq', 'variant': 'san', 'profile': 'dd', 'quick': 800, 'thorough': 16000, 'avg_case_s': 0.05},
+        {'engine': 'gridseq', 'variant': 'san', 'profile': 'ops', 'quick': 800, 'thorough': 16000, 'avg_case_s': 0.05},
+        {'engine': 'gridseq', 'variant': 'san', 'profile': 'selftest', 'quick': 320, 'thorough': 3200, 'avg_case_s': 0.06},
+    ],
+    'prefixes': ['C05.'],
+    'required_counters': ['dd_checks', 'op_checks', 'q.relation_with_cg', 'q.frequency', 'op.difference_assign', 'op.generalized_affine_preimage', 'st.difference',
+                          'reach.GRID_CONV_C2G', 'reach.GRID_CONV_G2C', 'reach.GRID_SIMPLIFY_C', 'reach.GRID_SIMPLIFY_G'],
+    'rule': ('cases = random histories (4-12 steps) over a pool of 3 grids, dimension 0-3 (4 thorough), built from congruences (moduli 0-6) and generator systems with non-unit divisors, '
+             'parameters and lines; after every step the four descriptions of each grid must denote one lattice (own Hermite-normal-form model), every query is answered from that lattice, '
+             'every operator must equal its lattice definition, join and difference must be the smallest grid; profile selftest checks the reference model itself against brute-force membership. '
+             'distinct_nontrivial = distinct (operation | status word | shape class) configurations, counted by hashing; evaluations = oracle checks.'),
+    'assumptions': ['GMP arithmetic', 'RefGrid (/verif/ref/refgrid.hh), self-tested against brute force in the same check'],
+}
+CHECKS['C06'] = {
+    'level': 'exploration',
+    'jobs': [{'engine': 'mipdiff', 'variant': 'san', 'profile': 'default', 'quick': 16000, 'thorough': 600000, 'avg_case_s': 0.02}],
+    'prefixes': ['C06.'],
+    'required_counters': ['q.solve', 'q.is_satisfiable', 'q.feasible_point', 'q.optimizing_point', 'q.optimal_value', 'fresh.float', 'fresh.exact', 'fresh.textbook',
+                          'ref.enum', 'ref.bb', 'incremental_requery', 'reach.MIP_PIVOT', 'reach.MIP_PRICE_FLOAT', 'reach.MIP_PRICE_EXACT', 'reach.MIP_PRICE_TEXTBOOK',
+                          'reach.MIP_SOLVE_MIP', 'reach.MIP_IS_MIP_SAT', 'reach.MIP_MERGE_SPLIT'],
+    'rule': ('cases = random incremental histories (4-11 steps + immediate re-queries) over two MIP_Problem objects, dim 0-3 (4 thorough), deterministic in (VERIF_SEED, case); '
+             'evaluations = oracle checks (arithmetic certifications of returned points/values, reference status/optimum comparisons by own exact simplex + integer enumeration / branch and bound, '
+             'incremental-vs-fresh x6 under the three pricing rules, copy/twin comparisons, accessor-vs-log comparisons); distinct_nontrivial = distinct (operation | status/initialized/pending '
+             'word of ascii_dump | lp/mip | reference status | pricing) configurations with >= 1 constraint and dim >= 1.'),
+    'assumptions': ['GMP arithmetic', 'RefLP + own integer enumeration / branch and bound (node cap => inconclusive)'],
+}
